@@ -467,6 +467,21 @@ def _width_obligations(ctx, once):
         ctx.error(f"format-width rule bound to {n} floating-point specs in writer functions (at least 8 expected)", BULK + ":1")
 
 
+def _split_evaluable(E, X, values):
+    """the case split on the quantity X (the rendered width of a user format) is reliable: every test on the way that mentions X can be evaluated
+    for each of the values (a comparison with something unknown - a constant of another module, the result of a call - cannot: the run with X
+    replaced by a value then follows arms that may be impossible for that value, and what is found there proves nothing)"""
+    seen = set()
+    for src in list(E.finals) + E.events():
+        for t, _ in src.facts:
+            if id(t) in seen:
+                continue
+            seen.add(id(t))
+            if M.mentions(t, X) and any(M.truth(t, {X: v}) is None for v in values):
+                return False
+    return True
+
+
 def _arm_value(atom, facts, allowed):
     """the values of `atom` the facts leave possible, and whether all of them are allowed (None: a test on the way speaks about the quantity in a
     way that cannot be evaluated - e.g. membership in something unknown - so nothing can be said)"""
@@ -480,10 +495,13 @@ def _arm_value(atom, facts, allowed):
 class V:
     """verdict of one obligation over several paths: a contradiction (False) wins over `not understood` (None) wins over True"""
 
-    def __init__(self):
+    def __init__(self, demote=False):
         self.v, self.detail, self.node = True, None, None
+        self.demote = demote          # a contradiction found here is not a proof (the case split it was found under is not reliable): not understood
 
     def bad(self, detail=None, node=None):
+        if self.demote:
+            return self.unknown(detail, node)
         if self.v is not False:
             self.v, self.detail = False, detail
             self.node = node or self.node
@@ -676,7 +694,7 @@ def _tabled1_analysis(ctx):
             if at not in atoms:
                 atoms.append(at)
     X = atoms[0] if len(atoms) == 1 else ("flen", form, 2)
-    res = {"fn": fn, "E": E, "X": X, "atoms": atoms, "paths": paths, "arms": {}}
+    res = {"fn": fn, "E": E, "X": X, "atoms": atoms, "paths": paths, "arms": {}, "split_ok": _split_evaluable(E, X, (16, 32))}
     for pairw in (32, 16):
         # case split on the rendered width of a pair: the function is evaluated again with len(form.format(a, b)) = pairw, so it does not
         # matter how (or whether) the code branches on it
@@ -720,13 +738,13 @@ def _tabled1(ctx):
         g.bad({"no data is written for a form that renders a pair in": sorted({16, 32} - reach)})
     g.report(ctx, "wttabled1: a user `form` must render a pair in 16 or 32 characters", fn)
     N = lin(("len", ("sym", "t")))
-    endt_all = V()
+    endt_all = V(demote=not A["split_ok"])
     for label, pairw, per in (("large field", 32, 2), ("small field", 16, 4)):
         arm = A["arms"][pairw]
         if not arm:
             ctx.error(f"wttabled1 [{label}]: no path on which a pair renders in {pairw} characters", fn)
             continue
-        line, head, inter, left, loop, lasthead = V(), V(), V(), V(), V(), V()
+        line, head, inter, left, loop, lasthead = (V(demote=not A["split_ok"]) for _ in range(6))
         headtext = ""
         # where the vectorised write stops (the same extent on every path of the arm)
         ups = set()
@@ -985,7 +1003,14 @@ def _grids(ctx, once):
     if len(atoms) > 1 or X[2] != 1:
         g.unknown({"tested quantities": [show(a_) for a_ in atoms]})
 
+    split_ok = _split_evaluable(E, X, (8, 16))
+
     def chk(ok, inst, where, detail=None, key=None):
+        if not ok and not split_ok:
+            if (key or inst) not in once.seen:
+                once.seen.add(key or inst)
+                ctx.error(inst, where, {"found under a case split that is not reliable (a test on the rendered width cannot be evaluated)": detail})
+            return ok
         return once.check(ok, inst, where, detail, key=key)
     reach = set()
     for e in vec:
@@ -1196,6 +1221,7 @@ def r2_nonempty_vector(ctx):
         # case split on the rendered width of a user format, when the function validates it against a few values
         runs = [("", E0)]
         atoms = []
+        unreliable = set()
         for e in E0.events("call"):
             if is_vecwrite(e):
                 for at in flen_atoms(e.facts, "form"):
@@ -1210,6 +1236,8 @@ def r2_nonempty_vector(ctx):
             if vals and len(vals) <= 4:
                 names = {(2, 32): " [large field]", (2, 16): " [small field]"}
                 runs = [(names.get((atoms[0][2], v_), f" [form width {v_}]"), engine(ctx, BULK, q, pins={atoms[0]: v_})) for v_ in sorted(vals, reverse=True)]
+                if not _split_evaluable(E0, atoms[0], sorted(vals)):
+                    unreliable.add(q)
         oq = owner(q)
         for label, E2 in runs:
             by_node = {}
@@ -1221,6 +1249,8 @@ def r2_nonempty_vector(ctx):
                 if any(isinstance(a, tuple) and a[:1] == ("star",) for a in data):
                     out.setdefault(nid, []).append((label, None, f"{oq}{label}: vectorised write of a starred list", "the list is not known here: " + show(data[0]), evs[0].node, None))
                     continue
+                # reached and understood: from here on an empty list of rows means that the call passes nothing whose extent has to be guarded
+                out.setdefault(nid, [])
                 sl = [a for a in vecwrite_parts(evs[0])[2] if isinstance(a, tuple) and a and a[0] == "slice"]
                 if not sl:
                     continue
@@ -1252,6 +1282,8 @@ def r2_nonempty_vector(ctx):
                         break
                     if verdict is not True:
                         break
+                if verdict is False and q in unreliable:
+                    verdict, detail = None, {"found under a case split that is not reliable (a test on the rendered width cannot be evaluated)": detail}
                 inst = (f"{oq}{label}: the vectorised write of `{show(sl[0])}` ... is executed only when there is at least one full line")
                 out.setdefault(nid, []).append((label, verdict, inst, detail, evs[0].node, f"C13-R2|{oq}|{label.strip(' []')}|unguarded vecwrite"))
         return out
@@ -1568,7 +1600,7 @@ def r3_reader_strides(ctx):
     A = _tabled1_analysis(ctx)
     for pairw in (32, 16):
         W = pairw // 2
-        h = V()
+        h = V(demote=not A["split_ok"])
         if not A["arms"][pairw]:
             h.unknown("no path for this field width")
         for s, (lines, term) in A["arms"][pairw]:
@@ -2984,6 +3016,29 @@ def _tiling(ctx, E, q, seq, fn):
                 # loop symbols over-approximate what the loop can produce: only report when none is involved
                 if w is not None and not any("@" in show(k) for k in w):
                     v.bad({"written up to": show(wp), "length": show(N), "elements left for": {show(k): x for k, x in w.items()}})
+                elif w is not None:
+                    # ... or when the path is real with every loop in its first pass - or left before its first pass - (each loop variable at the value
+                    # it has on entry; the facts of the path, the loop test among them, are evaluated there): a pass that stops the writing early
+                    # does so already there
+                    first = {}
+                    for h in E.events(("for", "while")):
+                        for nm, pre_ in h.d["pre"].items():
+                            if isinstance(pre_, Lin) or (isinstance(pre_, tuple) and pre_[:1] == ("sym",)):
+                                first[("sym", f"{nm}@L{h.d['loop']}")] = lin(pre_)
+                                first[("sym", f"{nm}@L{h.d['loop']}'")] = lin(pre_)         # after a loop that made no pass at all
+                        if h.kind == "for" and isinstance(h.d["iter"], tuple) and h.d["iter"][:1] == ("range",) and the_atom(h.d["target"]) is not None:
+                            first[the_atom(h.d["target"])] = lin(h.d["iter"][1])
+                    wp1, facts1 = wp, list(s.facts)
+                    for _ in range(3):                  # the entry value of one loop variable may be that of an enclosing loop's
+                        for at, rep in first.items():
+                            wp1 = M.subst(wp1, at, rep)
+                            facts1 = [(M.subst(t, at, rep), pol) for t, pol in facts1]
+                    d1 = lin(wp1) - N
+                    syms1 = M.free_symbols(d1)
+                    if not any("@" in show(k) for k in syms1) and not any("@L" in show(t) for t, _ in facts1 if any(M.mentions(t, k) for k in syms1)):
+                        w1 = _witness(syms1, tuple(facts1), lambda a_, d1=d1: (M.lin_eval(d1, a_) is not None and M.lin_eval(d1, a_) < 0), limit=30) if 0 < len(syms1) <= 3 else None
+                        if w1 is not None:
+                            v.bad({"written up to": show(wp1), "length": show(N), "with every loop in its first pass; elements left for": {show(k): x for k, x in w1.items()}})
     if npaths == 0:
         v.unknown("no path reaches the end")
     v.report(ctx, f"{q}: the slices written follow each other without gap or overlap, starting at element 0", fn)
@@ -3006,15 +3061,21 @@ def _thru(ctx, q, required=True):
                 break
         if hit:
             cands.append(p_)
-    if not whiles or len(cands) != 1:
+    # ... or a `for` over the positions of the sequence (passes that fall inside a run already written write nothing)
+    fors = [e for e in E.events("for") if len(e.loops) == 1 and any(
+        x.kind == "call" and e.d["loop"] in x.loops and x.d["attr"] in ("append", "extend", "write") and any(_has_thru(a) for a in x.d["args"]) for x in E.events("call"))]
+    if not (whiles or fors) or len(cands) != 1:
         if required:
             raise AnchorError(f"{q}: loop that writes the items (single ids and `first THRU last` runs) of one of its arguments")
         return
     seqname = cands[0]
     seq = ("sym", seqname)
-    v = V().at(whiles[0].node)
+    v = V().at((whiles or fors)[0].node)
     runs = singles = 0
     cursors = {}
+    for h in fors:
+        r_, s_ = _thru_for(E, h, seq, seqname, v)
+        runs, singles = runs + r_, singles + s_
     for s_end in E.events("loopend"):
         lid = s_end.d["loop"]
         w = [e for e in whiles if e.d["loop"] == lid]
@@ -3087,6 +3148,107 @@ def _thru(ctx, q, required=True):
         v.unknown({"passes with THRU": runs, "passes with a single element": singles})
     v.report(ctx, f"{q}: each pass writes {seqname}[start] (or {seqname}[start] THRU {seqname}[end]) and moves the cursor just past what it wrote, "
                   "so no element is skipped or repeated", fn)
+
+
+def _thru_for(E, h, seq, seqname, v):
+    """THRU compression written as `for i in range(len(seq))`: a pass either writes seq[i] (alone or as the first element of a run) or - when i
+    lies inside a run already written - nothing.  The passes that write nothing are those with i < X for a carried quantity X (`end + 1`, the
+    position after the last run); the next element written is therefore max(i, X), and the usual cursor conditions are stated for that position:
+    it starts at 0, a writing pass writes from it and leaves max(i + 1, X') just past what it wrote, and the range ends at the length of the
+    sequence.  Returns (passes with THRU, passes with a single element)."""
+    lid = h.d["loop"]
+    it, tgt = h.d["iter"], h.d["target"]
+    N = lin(("len", seq))
+    if not (isinstance(it, tuple) and it[:1] == ("range",) and it[3] == Lin(c=1) and isinstance(tgt, Lin) and the_atom(tgt) is not None):
+        v.unknown({"loop": show(it)[:160]}, h.node)
+        return 0, 0
+    if any(x.d["loop"] == lid and x.d.get("by") == "break" for x in E.events("loopexit")):
+        v.unknown({"loop": show(it)[:160], "left by": "break"}, h.node)
+        return 0, 0
+    arms = []
+    for s_end in E.events("loopend"):
+        if s_end.d["loop"] != lid or len(s_end.loops) != 1:
+            continue
+        body = [e for e in E.events() if lid in e.loops and e.seq < s_end.seq and set(e.facts) <= set(s_end.facts)]
+        emitted = []
+        for e in body:
+            vals = []
+            if e.kind == "call" and e.d["attr"] in ("append", "extend", "write"):
+                for a in e.d["args"]:
+                    vals.extend(_seq_elems(a, seq))
+            if vals:
+                emitted.append((e, vals))
+        arms.append((s_end, emitted))
+    writing = [(a, em) for a, em in arms if em]
+    skipping = [a for a, em in arms if not em]
+    if not writing:
+        return 0, 0
+    # the threshold below which a pass writes nothing
+    X = None
+    if skipping:
+        for nm in sorted(h.d["pre"]):
+            sym = ("sym", f"{nm}@L{lid}")
+            if not (isinstance(h.d["pre"].get(nm), Lin) or (isinstance(h.d["pre"].get(nm), tuple) and h.d["pre"][nm][:1] == ("sym",))):
+                continue
+            for c in (1, 0):
+                cand = lin(sym) + c
+                if all(M.proves_ge0(cand - tgt - 1, a.facts) and a.d["env"].get(nm) == sym for a in skipping) \
+                        and all(M.proves_ge0(tgt - cand, a.facts) for a, _ in writing):
+                    X = (nm, c, cand)
+                    break
+            if X is not None:
+                break
+        if X is None:
+            v.unknown({"some passes write nothing": "no carried quantity separates them from the passes that write", "loop": show(it)[:120]}, skipping[0].node)
+            return 0, 0
+    pos0 = lin(it[1]) if X is None else M.mk_min([lin(it[1]), lin(h.d["pre"][X[0]]) + X[1]], h.facts, "max")
+    if pos0 != Lin():
+        r, wit = _differs(pos0, h.facts, limit=12)
+        if r is not False:
+            (v.bad if r and lin(pos0).is_const() else v.unknown)({"the first element written is at": show(pos0), "expected": "0 (the first element)"}, h.node)
+    runs = singles = 0
+    for s_end, emitted in writing:
+        idxs = [i for _, vs in emitted for i in vs]
+        first, last = idxs[0], idxs[-1]
+        thru = any(_has_thru(a) for e, _ in emitted for a in e.d["args"])
+        r, wit = _differs(first - tgt, s_end.facts, limit=12)
+        if r is not False:
+            (v.bad if r else v.unknown)({"pass": show(tgt), "writes from": f"{seqname}[{show(first)}]", "differ for": wit}, emitted[0][0].node)
+            continue
+        if thru:
+            runs += 1
+        else:
+            singles += 1
+        if not thru and len(idxs) > 1:
+            v.unknown({"elements written in one pass": [show(i) for i in idxs]}, emitted[0][0].node)
+            continue
+        nxt = tgt + 1
+        if X is not None:
+            after = s_end.d["env"].get(X[0])
+            if not (isinstance(after, Lin) or (isinstance(after, tuple) and after[:1] == ("sym",))):
+                v.unknown({"the position after the run": show(after)}, s_end.node)
+                continue
+            nxt = M.mk_min([tgt + 1, lin(after) + X[1]], s_end.facts, "max")
+        want = (last if thru else first) + 1
+        r, wit = _differs(nxt - want, s_end.facts, limit=12)
+        if r is True:
+            v.bad({"written": f"{seqname}[{show(first)}]" + (f" THRU {seqname}[{show(last)}]" if thru else ""), "the next element written is at": show(nxt),
+                   "should be": show(want), "differ for": wit, "consequence": "the elements in between are never written (or written twice)"}, emitted[-1][0].node)
+        elif r is None:
+            v.unknown({"the next element written is at": show(nxt), "should be": show(want)}, s_end.node)
+    # the positions run up to the length of the sequence the writer was given
+    lo_, _ = M.bounds(lin(it[2]) - N, h.facts)
+    if not (lo_ is not None and lo_ >= 0):
+        d_ = lin(it[2]) - N
+        syms = M.free_symbols(d_)
+        wit = _witness(syms, h.facts, lambda a_, d_=d_: (M.lin_eval(d_, a_) is not None and M.lin_eval(d_, a_) < 0), limit=12) if 0 < len(syms) <= 3 else None
+        if wit is None and d_.is_const() and d_.c < 0:
+            wit = {"every length": f"the last {-d_.c} position(s) are never visited"}
+        if wit is not None:
+            v.bad({"the loop ends at position": show(it[2]), "elements of " + seqname: show(N), "elements never written for": {(k if isinstance(k, str) else show(k)): x_ for k, x_ in wit.items()}}, h.node)
+        else:
+            v.unknown({"the loop ends at position": show(it[2]), "elements of " + seqname: show(N)}, h.node)
+    return runs, singles
 
 
 def _seq_elems(v, seq):
